@@ -1,4 +1,4 @@
-package props
+package pt
 
 import (
 	"bufio"
@@ -21,7 +21,7 @@ var (
 	knownOpen map[string]bool
 )
 
-func knownFindingOpen(id string) bool {
+func KnownFindingOpen(id string) bool {
 	knownOnce.Do(func() {
 		knownOpen = map[string]bool{}
 		path := os.Getenv("VERIF_KNOWN")
